@@ -1264,11 +1264,11 @@ func init() {
 	register(&property{
 		Meta: propertyMeta{
 			ID:          "C01",
-			Explanation: "The index that lookup walks is complete and ordered as the property states (not the regexp semantics of a pattern): (C01-ACCUM) path-sensitive evaluation of every insert into the two list-valued tier tables: the stored list is 'existing list ++ [route]', a fresh list only on a path where the comma-ok lookup said absent. (C01-METHODS) every tier insert is keyed by each element of a range over route.methods. (C01-KEYS) writer and reader keys agree per tier (static: method + whole path; first-segment: method + seg(X) with the same canonical form of seg on both sides; residual: method). (C01-TIERS) in match the static lookup dominates everything, a static hit returns at once, the cache sits after static and before dynamic matching, first-segment list before residual list, each scan is a range loop over the looked-up list applying the regexp to the whole path and returning the first candidate that matches with its own parameters. (C01-REPR) representation typestate: values derived from quotePointChar (regex-escaped text and offsets) flow only into the compile call, never into Route.start or the first-segment key, which are compared with raw request text; (C01-SPACE) the same separation for every literal-space sink (Route.path, Route.start, a read Route.spath, the returned table key, the URL template of ToURL) against every escaping/rewriting step. (C01-ANCHOR) every compiled route pattern is '^' ++ ... ++ '$'.",
+			Explanation: "The index that lookup walks is complete and ordered as the property states (not the regexp semantics of a pattern): (C01-ACCUM) path-sensitive evaluation of every insert into the two list-valued tier tables: the stored list is 'existing list ++ [route]', a fresh list only on a path where the comma-ok lookup said absent. (C01-METHODS) every tier insert is keyed by each element of a range over route.methods. (C01-KEYS) writer and reader keys agree per tier (static: method + whole path; first-segment: method + seg(X) with the same canonical form of seg on both sides; residual: method). (C01-TIERS) in match the static lookup dominates everything, a static hit returns at once, the cache sits after static and before dynamic matching, first-segment list before residual list, each scan is a range loop over the looked-up list applying the regexp to the whole path and returning the first candidate that matches with its own parameters. (C01-REPR) representation typestate: values derived from quotePointChar (regex-escaped text and offsets) flow only into the compile call, never into Route.start or the first-segment key, which are compared with raw request text; (C01-SPACE) the same separation for every literal-space sink (Route.path, Route.start, a read Route.spath, the returned table key, the URL template of ToURL) against every escaping/rewriting step. (C01-PREFILTER) the literal-prefix pre-filter in front of each regexp call (in match or in a wrapper such as Route.match) is evaluated abstractly under the two boundary scenarios of a path that begins with the route's start (equal length / longer): in neither may the candidate be given up without the regexp being tried. (C01-ANCHOR) every compiled route pattern is '^' ++ ... ++ '$'.",
 			NotDecided:  []string{"that the generated regexp means what the pattern grammar says ({name}, {name:regex}, [...])", "isFixedPath and the off-by-one arithmetic inside seg (only writer/reader agreement is checked)", "priority among patterns that the grammar makes overlap beyond tier and registration order"},
 			Assumptions: []string{"regexp package semantics", "go/ssa range-loop lowering (#rangeindex) visits elements in ascending order"},
 		},
-		Rules: []ruleFn{{"C01-ACCUM", ruleC01Accum}, {"C01-METHODS", ruleC01Methods}, {"C01-KEYS", ruleC01Keys}, {"C01-TIERS", ruleC01Tiers}, {"C01-REPR", ruleC01Repr}, {"C01-ANCHOR", ruleC01Anchor}, {"C01-GRAMMAR", ruleC01Grammar}, {"C01-SPACE", ruleC01Space}, {"C07-KEY", ruleCacheKey("C07-KEY")}, {"C07-VALUE", ruleC02Cache("C07-VALUE")}, {"C07-NODE", ruleCacheStruct("C07")}},
+		Rules: []ruleFn{{"C01-ACCUM", ruleC01Accum}, {"C01-METHODS", ruleC01Methods}, {"C01-KEYS", ruleC01Keys}, {"C01-TIERS", ruleC01Tiers}, {"C01-REPR", ruleC01Repr}, {"C01-ANCHOR", ruleC01Anchor}, {"C01-GRAMMAR", ruleC01Grammar}, {"C01-SPACE", ruleC01Space}, {"C01-PREFILTER", ruleC01Prefilter}, {"C07-KEY", ruleCacheKey("C07-KEY")}, {"C07-VALUE", ruleC02Cache("C07-VALUE")}, {"C07-NODE", ruleCacheStruct("C07")}},
 	})
 	register(&property{
 		Meta: propertyMeta{
@@ -1720,4 +1720,296 @@ func findRouteCopies(w *World, m *tierModel) []routeCopy {
 		})
 	}
 	return out
+}
+
+// ---------------------------------------------------------------------------
+// C01-PREFILTER — the literal-prefix pre-filter never rejects a candidate the regexp would accept.
+//
+// Before the regexp is tried, a candidate may be skipped when the path does not begin with the
+// route's literal start. The filter is sound iff "path begins with start" implies "the regexp is
+// tried". It is decided by abstract evaluation of the branch conditions between the candidate
+// and the regexp call under the two boundary scenarios of a path that does begin with start:
+// S1 len(path) == len(start) (e.g. the pattern /api/v1[/{name}] asked for as /api/v1) and
+// S2 len(path) > len(start). In each scenario len comparisons between the two, path[:len(start)]
+// == start, strings.Index(path, start) and strings.HasPrefix evaluate to constants; everything
+// else (is start empty? ...) is unknown and both branches are followed. Reaching a skip (return /
+// next iteration without the regexp call) in either scenario is a violation.
+
+type preScenario int
+
+const (
+	preEQ preScenario = iota // len(path) == len(start), path == start
+	preGT                    // len(path) > len(start), path begins with start
+)
+
+type tri int
+
+const (
+	triUnknown tri = iota
+	triTrue
+	triFalse
+)
+
+func triOf(b bool) tri {
+	if b {
+		return triTrue
+	}
+	return triFalse
+}
+
+type preEval struct {
+	path  string // canonical form of the path value
+	start *types.Var
+	recv  string // canonical form of the candidate route
+	sc    preScenario
+	pred  map[*ssa.BasicBlock]*ssa.BasicBlock
+}
+
+func (e *preEval) isPath(v ssa.Value) bool { return canonAlong(v, e.pred) == e.path }
+func (e *preEval) isStart(v ssa.Value) bool {
+	v = resolveAlong(v, e.pred)
+	if !isLoadOfField(v, e.start) {
+		return false
+	}
+	// the route whose start it is: the value the field address is taken from
+	ld, _ := v.(*ssa.UnOp)
+	if ld == nil {
+		return false
+	}
+	fa, ok := ld.X.(*ssa.FieldAddr)
+	if !ok {
+		return false
+	}
+	return canonAlong(fa.X, e.pred) == e.recv
+}
+func (e *preEval) lenKind(v ssa.Value) string {
+	v = resolveAlong(v, e.pred)
+	if c, ok := v.(*ssa.Call); ok && isBuiltin(c, "len") {
+		if e.isPath(c.Call.Args[0]) {
+			return "P"
+		}
+		if e.isStart(c.Call.Args[0]) {
+			return "S"
+		}
+	}
+	return ""
+}
+
+func (e *preEval) eval(v ssa.Value, depth int) tri {
+	if depth > 8 {
+		return triUnknown
+	}
+	v = resolveAlong(v, e.pred)
+	switch x := v.(type) {
+	case *ssa.Const:
+		if x.Value != nil && x.Value.Kind() == constant.Bool {
+			return triOf(constant.BoolVal(x.Value))
+		}
+	case *ssa.UnOp:
+		if x.Op == token.NOT {
+			switch e.eval(x.X, depth+1) {
+			case triTrue:
+				return triFalse
+			case triFalse:
+				return triTrue
+			}
+		}
+	case *ssa.Call:
+		if calleeName(x) == "strings.HasPrefix" && e.isPath(x.Call.Args[0]) && e.isStart(x.Call.Args[1]) {
+			return triTrue
+		}
+	case *ssa.BinOp:
+		cmp := func(op token.Token, rel int) tri { // rel: sign of (left - right)
+			switch op {
+			case token.EQL:
+				return triOf(rel == 0)
+			case token.NEQ:
+				return triOf(rel != 0)
+			case token.LSS:
+				return triOf(rel < 0)
+			case token.LEQ:
+				return triOf(rel <= 0)
+			case token.GTR:
+				return triOf(rel > 0)
+			case token.GEQ:
+				return triOf(rel >= 0)
+			}
+			return triUnknown
+		}
+		lk, rk := e.lenKind(x.X), e.lenKind(x.Y)
+		rel := 0
+		if e.sc == preGT {
+			rel = 1
+		}
+		if lk == "P" && rk == "S" {
+			return cmp(x.Op, rel)
+		}
+		if lk == "S" && rk == "P" {
+			return cmp(x.Op, -rel)
+		}
+		// strings.Index(path, start) OP const
+		for _, side := range [][2]ssa.Value{{x.X, x.Y}, {x.Y, x.X}} {
+			c, ok := resolveAlong(side[0], e.pred).(*ssa.Call)
+			if !ok || (calleeName(c) != "strings.Index") || !e.isPath(c.Call.Args[0]) || !e.isStart(c.Call.Args[1]) {
+				continue
+			}
+			k, okk := constInt(side[1])
+			if !okk {
+				continue
+			}
+			op := x.Op
+			if side[0] == x.Y {
+				op = flipOp(op)
+			}
+			// the index is 0
+			switch {
+			case k == 0:
+				return cmp(op, 0)
+			case k > 0:
+				return cmp(op, -1)
+			default:
+				return cmp(op, 1)
+			}
+		}
+		// path[:len(start)] == start
+		for _, side := range [][2]ssa.Value{{x.X, x.Y}, {x.Y, x.X}} {
+			sl, ok := resolveAlong(side[0], e.pred).(*ssa.Slice)
+			if !ok || !e.isPath(sl.X) || !e.isStart(side[1]) {
+				continue
+			}
+			lowZero := sl.Low == nil
+			if !lowZero {
+				if k, okk := constInt(sl.Low); okk && k == 0 {
+					lowZero = true
+				}
+			}
+			if lowZero && sl.High != nil && e.lenKind(sl.High) == "S" {
+				return cmp(x.Op, 0)
+			}
+		}
+	}
+	return triUnknown
+}
+
+func ruleC01Prefilter(r *Run) {
+	w := r.W
+	rule := "C01-PREFILTER"
+	r.Floor(rule, 2)
+	m := newTierModel(w)
+	startF := w.Field("rux", "Route", "start")
+	// every place a scan function is called from the matcher or from a wrapper of it
+	type site struct {
+		f    *ssa.Function
+		call *ssa.Call
+	}
+	var sites []site
+	seenF := map[*ssa.Function]bool{}
+	var collect func(f *ssa.Function)
+	collect = func(f *ssa.Function) {
+		if seenF[f] {
+			return
+		}
+		seenF[f] = true
+		eachInstr(f, func(in ssa.Instruction) {
+			c, ok := in.(*ssa.Call)
+			if !ok || !m.scanFns[staticCallee(c)] {
+				return
+			}
+			sites = append(sites, site{f, c})
+			if sc := staticCallee(c); sc != m.matchRegex {
+				collect(sc)
+			}
+		})
+	}
+	collect(m.matchFn)
+	for i, s := range sites {
+		f, call := s.f, s.call
+		construct := fmt.Sprintf("%s:candidate#%d", FuncName(f), i+1)
+		// region: one iteration of the innermost loop around the call, or the whole function
+		ln := loopNest(f)
+		var header *ssa.BasicBlock
+		for h := range ln[call.Block()] {
+			if header == nil || header.Dominates(h) {
+				header = h
+			}
+		}
+		var starts []*ssa.BasicBlock
+		if header != nil {
+			for _, sc := range header.Succs {
+				if ln[sc][header] {
+					starts = append(starts, sc)
+				}
+			}
+		} else {
+			starts = []*ssa.BasicBlock{f.Blocks[0]}
+		}
+		okAll := true
+		why := ""
+		for _, scn := range []preScenario{preEQ, preGT} {
+			ev := &preEval{path: canon(call.Call.Args[1]), start: startF, recv: canon(call.Call.Args[0]), sc: scn}
+			steps := 0
+			var walk func(b *ssa.BasicBlock, pred map[*ssa.BasicBlock]*ssa.BasicBlock, seen map[*ssa.BasicBlock]bool)
+			walk = func(b *ssa.BasicBlock, pred map[*ssa.BasicBlock]*ssa.BasicBlock, seen map[*ssa.BasicBlock]bool) {
+				steps++
+				if steps > 4000 || !okAll {
+					return
+				}
+				for _, in := range b.Instrs {
+					if in == ssa.Instruction(call) {
+						return // the regexp is tried
+					}
+					if panicsAt(in) {
+						return
+					}
+					if _, isRet := in.(*ssa.Return); isRet {
+						okAll = false
+						why = fmt.Sprintf("with len(path) %s len(start) the candidate is given up at %s without trying the regexp", map[preScenario]string{preEQ: "==", preGT: ">"}[scn], w.Pos(w.InstrPos(in)))
+						return
+					}
+				}
+				var succs []*ssa.BasicBlock
+				if iff, ok := b.Instrs[len(b.Instrs)-1].(*ssa.If); ok {
+					ev.pred = pred
+					switch ev.eval(iff.Cond, 0) {
+					case triTrue:
+						succs = b.Succs[:1]
+					case triFalse:
+						succs = b.Succs[1:2]
+					default:
+						succs = b.Succs
+					}
+				} else {
+					succs = b.Succs
+				}
+				for _, sc := range succs {
+					if header != nil && sc == header {
+						okAll = false
+						why = fmt.Sprintf("with len(path) %s len(start) the loop goes on to the next candidate without trying the regexp on this one", map[preScenario]string{preEQ: "==", preGT: ">"}[scn])
+						return
+					}
+					if header != nil && !ln[sc][header] {
+						continue // leaves the loop: not this candidate's business
+					}
+					if seen[sc] {
+						continue
+					}
+					np := map[*ssa.BasicBlock]*ssa.BasicBlock{}
+					for k, v := range pred {
+						np[k] = v
+					}
+					np[sc] = b
+					ns := map[*ssa.BasicBlock]bool{}
+					for k := range seen {
+						ns[k] = true
+					}
+					ns[sc] = true
+					walk(sc, np, ns)
+				}
+			}
+			for _, st := range starts {
+				walk(st, map[*ssa.BasicBlock]*ssa.BasicBlock{}, map[*ssa.BasicBlock]bool{st: true})
+			}
+		}
+		r.Check(rule, construct, w.InstrPos(call), okAll, map[bool]string{true: "whenever the path begins with the route's literal start (equal length or longer) the regexp is tried on the candidate", false: "the literal-prefix pre-filter rejects a candidate whose start is a prefix of the path: " + why + " (a route such as /api/v1[/{name}] is not found for /api/v1)"}[okAll])
+	}
 }
